@@ -5,7 +5,7 @@
 From Coq Require Import ZArith String List Bool Permutation.
 From PushModel Require Import Base.Sx Base.Machine Base.ListOps Base.F32 Model.Item Model.GraphT Model.State
   Model.InstrBase Model.Registry Model.Interp Model.RegistryAll Spec.SeqSpec
-  Proofs.Frame Proofs.StackOpsProofs Proofs.UniformProofs.
+  Proofs.Frame Proofs.StackOpsProofs Proofs.UniformProofs Proofs.VecUniform.
 Import ListNotations.
 Open Scope Z_scope.
 
@@ -123,6 +123,18 @@ Theorem C05_stackdepth_uniform : forall (FO : FloatOps),
   reg_is "EXEC.STACKDEPTH" (g_depth st_exec).
 Proof. exact @depth_uniform. Qed.
 Print Assumptions C05_stackdepth_uniform.
+
+(* the three vector stack types: same generic definitions; vector.rs registers no *.ROT for them *)
+Theorem C05_uniform_vector_stacks : forall (FO : FloatOps),
+  uniform_norot_for "BOOLVECTOR" L_bvec /\ uniform_norot_for "INTVECTOR" L_ivec /\ uniform_norot_for "FLOATVECTOR" L_fvec.
+Proof. exact @uniform_vector. Qed.
+Print Assumptions C05_uniform_vector_stacks.
+
+Theorem C05_stackdepth_uniform_vector : forall (FO : FloatOps),
+  reg_is "BOOLVECTOR.STACKDEPTH" (g_depth st_bvec) /\ reg_is "INTVECTOR.STACKDEPTH" (g_depth st_ivec) /\
+  reg_is "FLOATVECTOR.STACKDEPTH" (g_depth st_fvec).
+Proof. exact @depth_uniform_vector. Qed.
+Print Assumptions C05_stackdepth_uniform_vector.
 
 (* non-vacuity: a state with an index and a three-element stack *)
 Example C05_nonvacuous :
